@@ -30,7 +30,9 @@ with ThreadPoolExecutor(max_workers=10) as ex:
     for d, rc, out, props in ex.map(run_one, dirs):
         sd = os.path.join(V, 'seeded', d)
         meta = json.load(open(os.path.join(sd, 'meta.json')))
-        if 'PATCH DOES NOT APPLY' in out or 'patch does not apply' in out:
+        if meta.get('superseded_by'):
+            verdict, rules = 'no longer a defect on HEAD: superseded by ' + meta['superseded_by'].split(':')[0], []
+        elif 'PATCH DOES NOT APPLY' in out or 'patch does not apply' in out:
             verdict, rules = 'patch no longer applies to HEAD (superseded by a later fix)', []
         else:
             rules = sorted(set(re.findall(r'^  rule      (\S+)', out, re.M)))
